@@ -784,6 +784,31 @@ fn run_mismatch(cfg: &HsCfg, kind: usize, slot: Option<usize>, sc: &mut Sc, r: &
             }
         }
     }
+    if failed {
+        // a refused message must not leave a usable channel behind either: conversions are attempted on both sides
+        // (the writer of a refused final message is legitimately finished, its reader is not), and if both succeed no
+        // transport message may be accepted in either direction (seed C08-N: Split() before the final payload check)
+        let stateless = r.chance(1, 2);
+        let (c1, c2) = (sc.ex.convert(1, stateless), sc.ex.convert(2, stateless));
+        sc.check_panic(&c1, "conversion after a refused handshake message");
+        sc.check_panic(&c2, "conversion after a refused handshake message");
+        sc.count("mismatch.conversion_attempt");
+        if c1.is_ok() && c2.is_ok() {
+            for (w, rd) in [(1u32, 2u32), (2, 1)] {
+                let (mo, ro);
+                if stateless {
+                    mo = sc.ex.st_write(w, 0, b"hello", 64);
+                    ro = mo.bytes().map(<[u8]>::to_vec).map(|m| sc.ex.st_read(rd, 0, &m, 64));
+                } else {
+                    mo = sc.ex.t_write(w, b"hello", 64);
+                    ro = mo.bytes().map(<[u8]>::to_vec).map(|m| sc.ex.t_read(rd, &m, 64));
+                }
+                if ro.map_or(false, |o| o.is_ok()) {
+                    sc.viol("C08", format!("{name}: a handshake message was refused (mismatch in {what}), yet both parties converted and a transport message was accepted"));
+                }
+            }
+        }
+    }
     sc.count(if failed { "mismatch.detected" } else { "mismatch.undetected" });
     true
 }
@@ -1402,7 +1427,10 @@ fn run_prop(prop: &str, thorough: bool, seed: u64) -> Run {
                 gen_many_sessions(&mut run, thorough);
             }
         },
-        "C08" => gen_mismatch(&mut run, seed, thorough),
+        "C08" => {
+            gen_mismatch(&mut run, seed, thorough);
+            gen_handmods(&mut run, seed);
+        },
         "C10" => {
             gen_parse(&mut run, seed, false);
             gen_build(&mut run, seed, false);
